@@ -50,6 +50,7 @@ class ObsTransport(TCPTransport):
         if SIM is not None:
             SIM.events.append((CLK.now, self._selfNode.address, 'CONN', node.id))
             SIM.conn_events[(self._selfNode.address, node.id)].append('C')
+            SIM.on_connected(self, node)
         TCPTransport._onNodeConnected(self, node)
 
     def _onNodeDisconnected(self, node):
@@ -98,22 +99,78 @@ class E2Sim(object):
         self.sit = collections.Counter()
         self.last_traffic = {}
         self.both_up = set()
+        # outsiders (attribution clause: never from a non-member or a removed node).  X never is one of self.addrs:
+        # the re-establishment and probe oracles speak about the permanent members only.
+        #   stranger : X runs from the start with the members as its partners; no member has ever listed it
+        #   removed  : X is a founding member, is removed at run time, and keeps running with its old configuration
+        #   ghost    : X is added while it is down, removed again before it ever connected, and only then started
+        self.outsider = cfg.get('outsider')
+        self.X = '10.0.0.%d:4321' % cfg.get('x_host', 9)
+        self.extra = []
+        self.x_removed_requested = False
+        self.x_added_requested = False
+        self.mship_results = []
         for a in self.addrs:
             self.start(a)
+        if self.outsider in ('stranger', 'removed'):
+            self.extra.append(self.X)
+            self.start(self.X)
 
     def conf(self):
         c = self.cfg
         return SyncObjConf(autoTick=False, connectionTimeout=c.get('conn_timeout', 3.5), connectionRetryTime=c.get('retry', 5.0),
                            sendBufferSize=c.get('sndbuf', 65536), recvBufferSize=c.get('rcvbuf', 65536),
-                           appendEntriesUseBatch=True, leaderFallbackTimeout=30.0)
+                           appendEntriesUseBatch=True, leaderFallbackTimeout=30.0,
+                           dynamicMembershipChange=self.outsider in ('removed', 'ghost'))
+
+    def partners_of(self, a):
+        if a == self.X:
+            return list(self.addrs)
+        base = [b for b in self.addrs if b != a]
+        if self.outsider == 'removed':
+            base.append(self.X)          # founding member; processes (re)start with the original list, as real ones do
+        return base
 
     def start(self, a):
         host = a.split(':')[0]
         self.net.current = host
         socksim.revive_host(host)
-        self.objs[a] = Cnt(a, [b for b in self.addrs if b != a], self.conf())
+        self.objs[a] = Cnt(a, self.partners_of(a), self.conf())
         self.dead.discard(a)
         self.inc[a] += 1
+
+    def everyone(self):
+        return self.addrs + self.extra
+
+    def members_of(self, obj):
+        return set(n.id for n in obj.otherNodes)
+
+    def on_connected(self, transport, node):
+        obj = transport._syncObj
+        if isinstance(node, TCPNode) and obj is not None and node.id not in self.members_of(obj):
+            raise Violation('C14', 'connected_notification_for_non_member', '%s is told that %s connected, which is not one of its members'
+                            % (transport._selfNode.address, node.id), outsider=self.outsider)
+
+    def mship(self, what):
+        """Ask the current leader (or any live member) to add/remove X; the request may fail or be lost under faults."""
+        live = [a for a in self.addrs if a not in self.dead]
+        if not live:
+            return
+        ls = [a for a in live if self.objs[a]._isLeader()]
+        a = ls[0] if ls else self.rng.choice(live)
+        obj = self.objs[a]
+        self.net.current = a.split(':')[0]
+        cb = lambda res, err, what=what: self.mship_results.append((what, err))
+        if what == 'add':
+            self.run_node(a, obj.addNodeToCluster, self.X, cb)
+            self.x_added_requested = True
+        else:
+            self.run_node(a, obj.removeNodeFromCluster, self.X, cb)
+            self.x_removed_requested = True
+        self.sit['membership_' + what + '_requested'] += 1
+
+    def x_is_member_somewhere(self):
+        return [a for a in self.addrs if a not in self.dead and self.X in self.members_of(self.objs[a])]
 
     def run_node(self, a, fn, *args):
         self.net.current = a.split(':')[0]
@@ -143,8 +200,10 @@ class E2Sim(object):
         if isinstance(node, TCPNode):
             known = set(n.id for n in obj.otherNodes)
             if nid not in known:
-                raise Violation('C14', 'message_from_non_member', '%s was handed a message as coming from %s, which is not one of its members'
-                                % (me, nid))
+                raise Violation('C14', 'message_from_non_member', '%s was handed a %s message as coming from %s, which is not one of its members'
+                                % (me, message.get('type') if isinstance(message, dict) else type(message).__name__, nid), outsider=self.outsider)
+            if nid == self.X:
+                self.sit['messages_from_X_while_member'] += 1
             dig = h32(repr(sorted(message.items())) if isinstance(message, dict) else repr(message))
             lst = self.sent[(nid, me)]
             k = self.recv_pos[(nid, me)]
@@ -214,8 +273,8 @@ class E2Sim(object):
             s.peer.flow_dropped = True
             self.sit['flow_dropped_half_open'] += 1
         elif c < 0.88:
-            live = [a for a in self.addrs if a not in self.dead]
-            if len(live) > 1:
+            live = [a for a in self.everyone() if a not in self.dead]
+            if len([a for a in live if a in self.addrs]) > 1:
                 a = rng.choice(live)
                 socksim.kill_host(a.split(':')[0])
                 self.dead.add(a)
@@ -230,12 +289,19 @@ class E2Sim(object):
         rng = self.rng
         cfg = self.cfg
         try:
-            for step in range(cfg.get('steps', 3000)):
-                a = rng.choice(self.addrs)
+            steps = cfg.get('steps', 3000)
+            t_remove = int(steps * cfg.get('remove_at', 0.4))
+            for step in range(steps):
+                a = rng.choice(self.everyone())
                 self.tick(a, rng.choice([0.001, 0.005, 0.02, 0.1]))
                 self.net_step()
                 if rng.random() < cfg.get('fault_rate', 0.01):
                     self.fault()
+                if self.outsider == 'ghost' and step == t_remove // 2:
+                    self.mship('add')
+                if self.outsider in ('removed', 'ghost') and step >= t_remove and (step - t_remove) % 400 == 0 and self.x_is_member_somewhere():
+                    if self.outsider == 'removed' or self.x_added_requested:
+                        self.mship('remove')
                 if RAISED:
                     raise RAISED[0]
             self.healthy_phase()
@@ -247,7 +313,7 @@ class E2Sim(object):
         t_end = CLK.now + seconds
         while CLK.now < t_end:
             CLK.now += dt
-            for a in self.addrs:
+            for a in self.everyone():
                 if a not in self.dead:
                     self.run_node(a, self.objs[a].doTick, 0.0)
             self.net_step(healthy=True)
@@ -264,7 +330,7 @@ class E2Sim(object):
             oa = self.objs[a]
             for n in oa.otherNodes:
                 b = n.id
-                if a < b and b not in self.dead:
+                if a < b and b not in self.dead and b in self.objs:
                     ob = self.objs[b]
                     if oa.isNodeConnected(n) and any(m.id == a and ob.isNodeConnected(m) for m in ob.otherNodes):
                         self.both_up.add((a, b))
@@ -318,6 +384,26 @@ class E2Sim(object):
                 raise Violation('C14', 'not_reestablished', 'during %.1fs of healthy network these pairs were never connected on both sides: %r'
                                 % (3 * B, bad[:4]), n=len(bad))
         self.sit['reestablished_after_faults'] += 1
+        if self.outsider in ('removed', 'ghost'):
+            # the network is healthy: the removal goes through on every member; X (running with its old configuration, or
+            # started only now) keeps dialling and being dialled by nobody - the monitors on every member watch
+            for _ in range(6):
+                if not self.x_is_member_somewhere():
+                    break
+                self.mship('remove')
+                self.settle(2.0)
+            if not self.x_is_member_somewhere():
+                self.sit['X_removed_on_every_member'] += 1
+                if self.X not in self.extra:
+                    self.extra.append(self.X)
+                    self.start(self.X)
+                    self.sit['ghost_started_after_removal'] += 1
+                elif self.X in self.dead:
+                    self.start(self.X)
+                self.settle(B)
+                self.sit['removed_node_kept_out'] += 1
+        elif self.outsider == 'stranger':
+            self.sit['stranger_kept_out'] += 1
         # idle for a random time so that links of every age get probed (followers never talk to each other)
         idle = self.rng.choice([0.0, 1.0, cfg.get('conn_timeout', 3.5) + 0.5, 9.0])
         if idle:
@@ -338,7 +424,11 @@ class E2Sim(object):
             for n in sorted(obj.otherNodes, key=lambda x: x.id):
                 if only is not None and a != only and n.id != only:
                     continue
+                if n.id not in self.objs:
+                    continue
                 if not obj.isNodeConnected(n):
+                    if n.id == self.X:
+                        continue
                     if only is not None:
                         raise Violation('C14', 'not_reestablished', 'link %s - %s carries the heartbeats of a leader that was stable for %.1fs of healthy '
                                         'network, yet %s still reports the peer disconnected' % (a, n.id, 2 * (self.cfg.get('retry', 5.0) + self.cfg.get('conn_timeout', 3.5) + 1.0), a),
@@ -385,17 +475,28 @@ def gen_cfg(seed, i):
             'sndbuf': r.choice([64, 1024, 65536]), 'rcvbuf': r.choice([16, 1024, 65536])}
 
 
+def gen_cfg_outsider(cfg, seed, i):
+    """Every third case has an outsider (own generator: the other parameters of a case do not depend on it)."""
+    r = random.Random(h32('e2x', seed, i))
+    if r.random() < 0.34:
+        cfg['outsider'] = r.choice(['stranger', 'removed', 'ghost', 'ghost'])
+        cfg['x_host'] = r.choice([0, 9])          # smaller / greater than every member: X is dialled by / dials the members
+        cfg['remove_at'] = r.choice([0.2, 0.5, 0.8])
+    return cfg
+
+
 def cases(prop, tier, seed):
     return 400 if tier == 'quick' else 8000
 
 
 def run_case(prop, tier, seed, i):
     rs = (h32('e2s', seed) % 100000) * 100000 + i
-    cfg = gen_cfg(seed, i)
+    cfg = gen_cfg_outsider(gen_cfg(seed, i), seed, i)
     sim = E2Sim(cfg, rs).run()
     res = {'runs': 1, 'violations': [], 'sit': dict(sim.sit), 'obs': dict(sim.stats), 'escaped': {}, 'inconclusive': None}
     res['obs'].update({'net_' + k: v for k, v in sim.net.stats.items()})
-    faults = [k for k in ('rst', 'blackhole', 'flow_dropped_half_open', 'node_killed', 'node_restarted') if sim.sit.get(k)]
+    faults = [k for k in ('rst', 'blackhole', 'flow_dropped_half_open', 'node_killed', 'node_restarted', 'stranger_kept_out',
+                          'removed_node_kept_out', 'ghost_started_after_removal') if sim.sit.get(k)]
     res['nontrivial_fps'] = [h32(i, tuple(faults), cfg['n'])] if faults or sim.sit.get('probe_round_ok') else []
     if sim.violation is not None:
         rec = sim.violation.record()
